@@ -6,9 +6,11 @@ CONSTANTS
   MaxFaults = 1
   MaxInject = 1
   FaultKinds = {"Lose", "Drop", "Dup", "Flip", "WrongSid", "WrongFrom", "Swap", "EarlyClose"}
-  InjectKinds = {"from", "sid"}
+  InjectKinds = {"from", "res", "sid"}
+  InjectElems = {"open", "data", "close"}
   Bursts = {}
   MaxHist = 999
 INVARIANTS TypeOK Safe FaultDetected CleanSuccess CleanInv
+PROPERTIES ForeignInert
 VIEW View
 CHECK_DEADLOCK FALSE
